@@ -399,27 +399,21 @@ def fn_text(fn):
 
 
 
-def strip_dup(v):
-    """normalise an RP answer 'blocks ; conds': drop a duplicated last block -> (blocks, conds, had_dup)"""
-    bl, _, cs = v.partition(";")
-    bl = bl.split()
-    dup = len(bl) >= 2 and bl[-1] == bl[-2]
-    return (bl[:-1] if dup else bl), cs.split(), dup
-
-
 def repaired_dup(kind, v, mv):
     """True when impl and faithful model differ ONLY by the artefact of PathToLeaf's duplicated last block, the
     implementation being the one without it (non-alarm direction: the impl is closer to the spec than the model)."""
     if mv is None:
         return False
     if kind == "RP":
-        b1, c1, d1 = strip_dup(v)
-        b2, c2, d2 = strip_dup(mv)
-        return b1 == b2 and not d1 and d2 and (c1 == c2 or c1 == c2[:-1])
+        b1, _, c1 = v.partition(";")
+        b2, _, c2 = mv.partition(";")
+        b1, b2, c1, c2 = b1.split(), b2.split(), c1.split(), c2.split()
+        return len(b1) >= 1 and b1[0] != "nil" and b2 == b1 + [b1[-1]] and (c1 == c2 or c1 == c2[:-1])
     if kind == "RE":
         c1 = v.split(";")[0].split()
         c2 = mv.split(";")[0].split()
-        return v.endswith("d=0") and (c1 == c2[:-1]) and len(c2) > 0
+        d1, d2 = v.rsplit("d=", 1)[-1], mv.rsplit("d=", 1)[-1]
+        return len(c2) > 0 and c1 == c2[:-1] and (d1 == d2 or (d1 == "0" and d2 == "1"))
     return False
 
 
@@ -486,7 +480,7 @@ def run(chk):
              "model_mismatch": 0, "impl_more_conservative": 0, "edge_spec_failures_known_class": 0,
              "edge_spec_failures_other": 0, "scenarios": 0, "scenarios_leaking": 0, "scenarios_suppressed": 0,
              "scenarios_suppressed_and_leaking": 0, "scenarios_unattributed_miss": 0, "stale_known_finding": 0,
-             "edge_spec_failures_dup_class": 0, "cfg_not_wf": 0, "conds_not_wf": 0}
+             "edge_spec_failures_dup_class": 0, "repaired_dup_artefact": 0, "cfg_not_wf": 0, "conds_not_wf": 0}
     distinct = set()
     shape_dist = {}
     found_concrete = False
@@ -552,8 +546,9 @@ def run(chk):
                         stats["stale_known_finding"] += 1
                     continue
                 if repaired_dup(kind, v, mv):
-                    stats["impl_more_conservative"] += 1
-                    stats["stale_known_finding"] += 1
+                    stats["repaired_dup_artefact"] += 1     # PathToLeaf no longer duplicates the last block: impl closer to the spec
+                    if kind == "RE" and v.endswith("d=0") and mv.endswith("d=1"):
+                        stats["stale_known_finding"] += 1
                     continue
                 stats["model_mismatch"] += 1
                 tie_broken.append((fn, k, v, mv))
@@ -569,7 +564,7 @@ def run(chk):
                 ideal = m["I"].get(k[3:])
                 if ideal != "bypass":
                     continue
-                explained = m["R"].get(k) == v
+                explained = (m["R"].get(k) or "").endswith("d=1")      # the faithful model drops this edge too
                 if explained and k[3:] in m["dup"]:
                     stats["edge_spec_failures_dup_class"] += 1
                     if stats["edge_spec_failures_dup_class"] <= 3:
@@ -632,7 +627,7 @@ def run(chk):
                 # known class <=> the faithful single-path model reproduces EVERY edge verdict of this function and some dropped
                 # edge into this sink has a bypass path (the situation of validator_drop_refuted)
                 res = {kk: vv for kk, vv in fn["R"].items() if kk[:2] == "RE" and kk.split()[1] != "s" and not vv.endswith("d=x")}
-                agree = all(fn["model"]["R"].get(kk) == vv for kk, vv in res.items())
+                agree = all(fn["model"]["R"].get(kk) == vv or repaired_dup("RE", vv, fn["model"]["R"].get(kk)) for kk, vv in res.items())
                 dropped = [kk for kk, vv in res.items() if vv.endswith("d=1") and fn["tag"].get(kk, "").endswith("->sink%d#0" % k)]
                 bypass = [kk for kk in dropped if fn["model"]["I"].get(kk[3:]) == "bypass"]
                 explained = agree and len(bypass) > 0
